@@ -47,12 +47,10 @@ THEOREMS = [
     "PV.C02.parseR_erase",
     "PV.C02.parseRExpression_erase",
     "PV.C02.tiled_of_lexer",
-    "PV.C02.parseR_rangesOkX",
     "PV.C02.parseR_rangesOk_partial",
-    "PV.C02.parseRExpression_rangesOkX",
     "PV.C02.parseRExpression_rangesOk_partial",
-    "PV.C02.argwithdefault_witness",
-    "PV.C02.parseR_rangesOk_fails",
+    "PV.C02.argwithdefault_regression",
+    "PV.C02.argwithdefault_parenthesised_default_witness",
     "PV.C02.parseR_extent",
     "PV.C02.parseR_extent_nonterminals",
     "PV.C02.parseR_extent_fails",
@@ -83,9 +81,10 @@ TRUSTED = [
 ]
 PARTIAL = [
     "proved (unbounded, for the MODEL): for the whole expression fragment except f-string pieces (`plain`): every tree "
-    "parseR returns for tiled token spans satisfies every structural clause of the property but one "
-    "(parseR_rangesOkX) and all five when no parameter has a default (parseR_rangesOk_partial); the full statement is "
-    "refuted on the code as it is (parseR_rangesOk_fails: listed finding argwithdefault-range-excludes-default)",
+    "parseR returns for tiled token spans satisfies all five structural clauses of the property "
+    "(parseR_rangesOk_partial, parseRExpression_rangesOk_partial; parameter defaults included since /repo 'fix: an "
+    "ArgWithDefault with a default ends at the end of the default': argwithdefault_regression); the statement for "
+    "EVERY tree (parseR_rangesOk_full) is stated, not proved: f-string pieces",
     "proved: the range of every node returned by a nonterminal of the expression chain is the span of the tokens "
     "consumed, up to parentheses that are returned through and the NamedExpr deviation (parseR_extent, "
     "parseR_extent_nonterminals); the statement without that deviation is refuted (parseR_extent_fails: listed "
@@ -112,9 +111,8 @@ LEVEL_TEXT = ("Machine-checked Lean 4, for every input and fuel: (1) erasing the
               "exactly the reference expression parser parseRef (C11), so acceptance and trees coincide; (2) for token "
               "spans that tile the source (proved of the lexer model by C05, bridged by tiled_of_lexer) every tree "
               "without f-string pieces that parseR returns satisfies all structural clauses of the property (inside the "
-              "input, on UTF-8 boundaries, start <= end, parents enclose children, list siblings ordered and disjoint) — "
-              "except that a parameter's default lies outside its ArgWithDefault, exactly the listed finding, which is "
-              "also proved to refute the unrestricted statement; (3) the range of every node returned by a nonterminal "
+              "input, on UTF-8 boundaries, start <= end, parents enclose children — parameter defaults included since the "
+              "repair of ParameterDef in /repo — list siblings ordered and disjoint); (3) the range of every node returned by a nonterminal "
               "is the span of the tokens consumed, up to returned-through parentheses and the listed NamedExpr "
               "deviation (refutation of the exact statement proved); (4) kernel-checked witnesses that the model "
               "reproduces the listed deviations from CPython's extents inside the fragment; (5) theorems about the "
@@ -142,7 +140,7 @@ PROBES = [
     ("match-subject-tuple-range-excludes-element-parentheses", "m", "match (a), b:\n case _: pass\n"),
     ("compound-end-excludes-trailing-semicolon", "m", "if a:\n    b;\nc\n"),
     ("namedexpr-range-excludes-value-parentheses", "m", "(y := (x))\n"),
-    ("argwithdefault-range-excludes-default", "m", "def f(a=1): pass\n"),
+    ("argwithdefault-range-excludes-default-closing-parenthesis", "m", "def f(a=(1)): pass\n"),
     ("lambda-empty-arguments-range", "m", "lambda: 1\n"),
 ]
 
@@ -336,8 +334,6 @@ def _top_comma(text):
 # ------------------------------------------------------------------------------------------------ classification
 
 def classify_struct(item):
-    if item == "enclose:ArgWithDefault:default":
-        return "argwithdefault-range-excludes-default"
     return None
 
 
@@ -345,9 +341,15 @@ def classify_extent(item, node, parent, b):
     kind = node[0]
     fd = dict(node[2])
     if kind == "ArgWithDefault" and _sub_nodes(fd["default"]):
+        # the item ends at the end of the default's NODE: for a parenthesised default the closing parentheses are
+        # missing from the item's text (and nothing else)
         d = _sub_nodes(fd["def"])[0]
-        if node[1] == d[1]:
-            return "argwithdefault-range-excludes-default"
+        dv = _sub_nodes(fd["default"])[0]
+        a, e = node[1]
+        if a == d[1][0] and e == dv[1][1]:
+            k = b[a:e].count(b"(") - b[a:e].count(b")")
+            if k > 0 and re.match(rb"(?:" + _WS + rb"*\)){%d}" % k, b[e:]) and (b"'" not in b[a:e] and b'"' not in b[a:e] and b"#" not in b[a:e]):
+                return "argwithdefault-range-excludes-default-closing-parenthesis"
     if kind == "Arguments" and parent and parent[0] == "ExprLambda" and node[1] == parent[1]:
         return "lambda-empty-arguments-range"
     return None
@@ -555,7 +557,7 @@ _LEAN_ITEMS = []
 RX_HARNESS = HARNESS            # ops `lexspans`, `rexpr` of pvh_c01 (all-ranges build)
 
 # the listed findings that are expressions (the model reproduces each deviation; the oracle names it)
-RX_FINDING_EXPRS = ["f(x for x in y)", "f( x for x in y )", "(y := (x))", "[y := (x)]", "lambda: 1", "lambda a=1: a",
+RX_FINDING_EXPRS = ["f(x for x in y)", "f( x for x in y )", "(y := (x))", "[y := (x)]", "lambda: 1", "lambda a=1: a", "lambda a=(1): a", "lambda a=( (b) ), *c: a",
                     "'a' f'{b}' 'c'", "f'{a}' f'{b:{c}}'"]
 
 RX_LAYOUT = r"""
@@ -1335,6 +1337,9 @@ def streams(ctx):
               "﻿x = 1\n", "x = (1 +\n  2)\n", "x = 1 + \\\n  2\n", "@d\ndef f(): pass\n", "@d\n@e(1)\nclass C: pass\n",
               "f'{x}' f'{y!r:>{w}}'\n", "x = 'a' 'b' \"c\"\n", "x = ('a'\n     'b')\n", "f(a, k=1, *b, **c)\n", "class C(a, k=1, *b, **c): pass\n",
               "def f(a, /, b, *c, d, **e): pass\n", "lambda a, *b: a\n", "with a as b, c: pass\n", "with (a as b, c as d): pass\n",
+              # repaired (ArgWithDefault did not include its default): regressions are violations
+              "def f(a=1): pass\n", "def f(a, b=1, /, c=2, *d, e=3, **g): pass\n", "def f(a: int = 1, *, b: 'é' = 'ü'): pass\n", "lambda a=1: a\n",
+              "lambda a, b=2, *, c=3: a\n", "def f(a =\n 1): pass\n", "def f(a=b if c else d, e=lambda: 0): pass\n", "async def f(a=[1, 2], b={}): pass\n",
               # repaired (with-items of a parenthesised list without `as` shared one range): regressions are violations
               "with (a, b): pass\n", "with (a, b,): pass\n", "with ((a), b): pass\n", "with ( a ,\n  b ): pass\n", "with (a, b, c.d(e)): pass\n",
               "async def f():\n async with (a, b): pass\n", "with (é, 'ü'): pass\n", "with (a): pass\n", "with (a,): pass\n", "with (a, b) as c: pass\n",
